@@ -134,6 +134,16 @@ func (rc *recipientCheck) collOK(f *Func, coll types.Object) (bool, string) {
 		if _, isLit := rhs.(*ast.CompositeLit); isLit {
 			continue
 		}
+		// a plain copy of another local recipient set (the result of an inlined selection helper): that set is checked
+		if id, isId := rhs.(*ast.Ident); isId && rc.depth < 6 {
+			if o := baseLocal(f, id); o != nil && o != coll {
+				n++
+				if ok, why := rc.collOK(f, o); !ok {
+					return false, why
+				}
+				continue
+			}
+		}
 		return false, "recipient set assigned from " + p.Src(rhs)
 	}
 	if n == 0 {
